@@ -12,6 +12,7 @@ import CBV.Lemmas.C14Renum
 import CBV.Lemmas.C14Box
 import CBV.Lemmas.C14Quad
 import CBV.Lemmas.C14Grid
+import CBV.Lemmas.C14Guard
 
 namespace CBV.C14
 open CBV
@@ -348,5 +349,94 @@ theorem T_C14_stretch_quad (L s : Rat) (hL : 0 < L) (hs : 1 ≤ s) :
 /-- non-vacuity / sanity: the model's signature of the 5:1:1 box -/
 example : (sigHex (box 5 1 1) (fun _ => none)).norm.aspect2 = 25 ∧
     (sigHex (box 1 5 1) (fun _ => none)).norm.aspect2 = 25 := by decide +kernel
+
+/-! ### the `VSMALL` guard under scaling: a bound instead of an exclusion -/
+
+/-- The exact signature of a hexahedron scaled by `k` (neighbour centres scaled with it), entry by entry: a triangle
+    entry `(n·c, |n|², |c|²)` becomes `(k³·n·c, k⁴·|n|², k²·|c|²)` (the normal is a cross product of two lengths), a
+    corner entry and every squared edge length are multiplied by `k²`. -/
+theorem T_C14_scale_entries (pts : List V3) (nb : Nat → Option V3) (k : Rat) :
+    sigHex (pts.map (V3.smul k)) (fun i => (nb i).map (V3.smul k)) =
+      ⟨(sigHex pts nb).tris.map (Tri.scale (k * k) k), (sigHex pts nb).corners.map (Tri.scale k k),
+       (sigHex pts nb).edges.map (fun x => (k * k) * x)⟩ :=
+  sigHexWith_smul_entries CBV.Gen.hexSideIdx CBV.Gen.hexAspectPairs pts nb k (fun s hs => (T_C14_tables.1.1 s hs).1)
+
+/-- **Scale invariance with the guard, as a bound.**  In any linearly ordered field (ℚ, ℝ), with `a = |n|`, `b = |c|`
+    (resp. the two side lengths at a corner, resp. longest / shortest edge) the norms of the *unscaled* cell and `e`
+    the guard (`VSMALL`): the guarded quantities `CellBase.quality` forms for the cell scaled by `k > 0` — whose
+    entries are those of `T_C14_scale_entries`, i.e. norms `k²a, kb`, `ka, kb`, `k·edge` — differ from the unguarded,
+    scale-free ones by at most
+    * `e / (k²·a)` for the cosine of a triangle normal against the centre-to-centre vector,
+    * `e / (k·a) + e / (k·b)` for the cosine of a corner angle,
+    * the relative amount `e / (k·min edge)` (and never upwards) for the aspect ratio,
+    so the dependence on size vanishes like `1/k` as the cell grows ("for sizes well above the guard"), and is as
+    large as the quantity itself when `k·min edge ≈ e`. -/
+theorem T_C14_guard_scale {K : Type} [Field K] [LinearOrder K] [IsStrictOrderedRing K]
+    (nc a b e k : K) (hk : 0 < k) (ha : 0 < a) (hb : 0 < b) (he : 0 ≤ e) (hcs : |nc| ≤ a * b) :
+    |gcos (k * k * k * nc) (k * k * a) (k * b) e - gcos nc a b 0| ≤ e / (k * k * a) ∧
+    |gcorner (k * k * nc) (k * a) (k * b) e - gcorner nc a b 0| ≤ e / (k * a) + e / (k * b) ∧
+    (∀ smax, 0 ≤ smax →
+      gaspect (k * smax) (k * a) e ≤ gaspect smax a 0 ∧
+      gaspect smax a 0 - gaspect (k * smax) (k * a) e ≤ gaspect smax a 0 * (e / (k * a))) := by
+  have hkk : 0 < k * k := mul_pos hk hk
+  refine ⟨?_, ?_, fun smax hmax => ?_⟩
+  · rw [gcos_scale nc a b e k hk]
+    exact (gcos_guard_bound nc a b (e / (k * k)) ha hb (div_nonneg he (le_of_lt hkk)) hcs).trans_eq (div_div _ _ _)
+  · rw [gcorner_scale nc a b e k hk]
+    exact (gcorner_guard_bound nc a b (e / k) ha hb (div_nonneg he (le_of_lt hk)) hcs).trans_eq
+      (by rw [div_div, div_div])
+  · rw [gaspect_scale smax a e k hk]
+    have h := gaspect_guard_bound smax a (e / k) hmax ha (div_nonneg he (le_of_lt hk))
+    rw [div_div] at h
+    exact h
+
+/-- non-vacuity, with the guard of the source (`VSMALL = 1e-6`, `T_C14_tables`): unit cube face (`|n| = 1/2`,
+    `|c| = 1/2`, `n·c = 1/4`), scaled by 100: the guarded cosine is within `2·10⁻¹⁰` of 1; scaled by 1/1000 it is
+    `1/3` — the same cell, three times as "non-orthogonal" -/
+example : |gcos (100 * 100 * 100 * (1 / 4 : Rat)) (100 * 100 * (1 / 2)) (100 * (1 / 2)) (1 / 1000000) - 1| ≤ 2 / 10000000000 ∧
+    gcos ((1 / 1000) * (1 / 1000) * (1 / 1000) * (1 / 4 : Rat)) ((1 / 1000) * (1 / 1000) * (1 / 2)) ((1 / 1000) * (1 / 2))
+      (1 / 1000000) = 1 / 3 := by
+  unfold gcos; norm_num [abs_le]
+
+/-! ### quadrilaterals: the exact domain of the renumbering clause -/
+
+/-- The domain, stated through the corner normals (no plane parametrisation): whenever the normals at two
+    consecutive corners, `(P1-P0)×(P3-P0)` and `(P2-P1)×(P0-P1)`, are *positive* multiples of one vector, moving the
+    first corner to the end only rotates the lists of the scale-free signature.  All four corner normals are
+    positive multiples of one vector exactly for the planar, strictly convex quadrilaterals (`T_C14_renumber_quad`). -/
+theorem T_C14_renumber_quad_normals (P0 P1 P2 P3 W : V3) (D0 D1 : Rat)
+    (h0 : V3.cross (P1 - P0) (P3 - P0) = V3.smul D0 W) (h1 : V3.cross (P2 - P1) (P0 - P1) = V3.smul D1 W)
+    (hpos : 0 < D1 * D0) (nb : Nat → Option V3) :
+    let s := sigQuad [P0, P1, P2, P3] nb
+    let s1 := sigQuad [P1, P2, P3, P0] (fun i => nb ((i + 1) % 4))
+    s1.norm.tris = rollL s.norm.tris ∧ s1.norm.corners = rollL s.norm.corners ∧ s1.norm.aspect2 = s.norm.aspect2 ∧
+      s1.norm.canon = s.norm.canon ∧ quality0 s1 = quality0 s := by
+  intro s s1
+  have r := sigQuad_roll P0 P1 P2 P3 W D0 D1 h0 h1 hpos nb
+  have q := quality0_of_roll s1 s r.1 r.2.1 r.2.2
+  exact ⟨r.1, r.2.1, r.2.2, q.1, q.2⟩
+
+theorem canon0_ne_of_mem (s s' : Sig0) (t : Tri0) (h1 : t ∈ s'.tris) (h2 : t ∉ s.tris) : s'.canon ≠ s.canon := by
+  intro h
+  have ht : s'.tris.mergeSort Tri0.le = s.tris.mergeSort Tri0.le := congrArg Sig0.tris h
+  have p1 := List.mergeSort_perm s'.tris Tri0.le
+  have p2 := List.mergeSort_perm s.tris Tri0.le
+  exact h2 (p2.mem_iff.mp (ht ▸ p1.mem_iff.mpr h1))
+
+/-- a planar quadrilateral with a reflex corner at `(1,1)` -/
+def concaveQuad : List V3 := [⟨0, 0, 0⟩, ⟨4, 0, 0⟩, ⟨1, 1, 0⟩, ⟨0, 4, 0⟩]
+/-- the unit square with one corner lifted out of the plane -/
+def twistedQuad : List V3 := [⟨0, 0, 0⟩, ⟨1, 0, 0⟩, ⟨1, 1, 1⟩, ⟨0, 1, 0⟩]
+
+/-- **Outside the domain the value depends on the numbering** (so the hypotheses of `T_C14_renumber_quad` cannot be
+    dropped): for a planar *concave* quadrilateral started at the reflex corner, and for a *non-planar* (twisted)
+    quadrilateral started at the next corner, the canonical scale-free signature differs from that of the original
+    numbering (the model's values: 5251 vs 182745 resp. 26.8 vs 34.6). -/
+theorem T_C14_renumber_quad_counterexamples :
+    (sigQuad (rollL (rollL concaveQuad)) (fun _ => none)).norm.canon ≠ (sigQuad concaveQuad (fun _ => none)).norm.canon ∧
+    (sigQuad (rollL twistedQuad) (fun _ => none)).norm.canon ≠ (sigQuad twistedQuad (fun _ => none)).norm.canon ∧
+    turn 1 1 0 4 4 0 * turn 4 0 1 1 0 0 < 0 := by
+  refine ⟨canon0_ne_of_mem _ _ ⟨1, 4 / 85⟩ (by decide +kernel) (by decide +kernel),
+    canon0_ne_of_mem _ _ ⟨1, 3 / 5⟩ (by decide +kernel) (by decide +kernel), by decide +kernel⟩
 
 end CBV.C14
